@@ -397,6 +397,104 @@ def process(ctx, hbin, cases, stats, samples):
                             "T": h["T"], "new": h["new"], "model": m and m["raw"], "override": bool(c.get("_iso"))})
 
 
+# ------------------------------------------------------------------ mps_mcluster under the deterministic scheduler
+def shim_run(ctx, hs, c, args):
+    """run one case under the schedules selected by args; returns (header, runs) with runs = list of
+    dicts {new, bad, status, what, sched, trace}"""
+    rc, o, e = vf.sh([hs] + args, input=case_line(c) + "\n", timeout=1500, env=ctx.san_env())
+    lines = o.splitlines()
+    header = None; runs = []; cur = None; k = 0
+    while k < len(lines):
+        ln = lines[k]
+        if ln.startswith(c["id"] + " T="):
+            f = ln.split(" "); header = {"T": f[1][2:], "TN": f[2][3:]}
+        elif ln.startswith("R new="):
+            f = ln.split(" "); cur = {"new": f[1][4:], "bad": f[2][4:]}
+        elif ln.startswith("# run "):
+            f = ln.split(" ")
+            r = {"status": int(f[4]), "what": f[12], "sched": f[14] if len(f) > 14 else "-", "new": None, "bad": "0", "trace": ""}
+            if cur: r.update(cur)
+            cur = None
+            if r["status"] != 0:
+                tr = []
+                k += 1
+                while k < len(lines) and lines[k] != "# end": tr.append(lines[k]); k += 1
+                r["trace"] = "\n".join(tr[-60:])
+            runs.append(r)
+        k += 1
+    return header, runs, rc, e
+
+
+def shim_phase(ctx, stats):
+    hs = ctx.compile_harness(["vf_sched.c", "c07_cluster.c"], "c07_cluster_shim", mode="shimsan")
+    rng = ctx.rng
+    jobs = []
+    if ctx.replay:
+        c = json.load(open(ctx.replay))
+        if not c.get("shim"): return
+        args = ["--replay", c["schedule"]]
+        c = {k: ([tuple(t) for t in v] if k in ("X", "Y", "G", "W") else v) for k, v in c.items()}
+        jobs.append((c, args, "replay"))
+    else:
+        nr, npct = ctx.pick((12, 8), (60, 40))
+        gens = ["chain", "random", "star", "coincident", "chain-tangent", "random", "zero", "chain"]
+        k = 0
+        for n in (130, 200):
+            for th in range(1, 9):
+                c = make_case(rng, "h%d" % k, "m", n, gens[(k + th) % len(gens)], rng.choice(["one", "random", "two"]),
+                              rng.choice(["big", "big", "same", "tiny"]), threads=th)
+                if c["gen"] == "random-huge": c["G"] = [g if g[0] != "MAX" else (1, 0) for g in c["G"]]; c["W"] = list(c["G"])
+                jobs.append((c, ["--random", str(nr), "--pct", str(npct), "--depth", "3", "--seed", str(rng.randrange(1, 10 ** 6))], "random+pct"))
+                k += 1
+        if not ctx.quick():
+            c = make_case(rng, "hd", "m", 129, "coincident", "two", "big", threads=2)
+            jobs.append((c, ["--dfs", "2", "--free-switch", "--max-runs", "3000"], "dfs2"))
+    with ThreadPoolExecutor(14) as ex:
+        outs = list(ex.map(lambda j: shim_run(ctx, hs, j[0], j[1]), jobs))
+    mlines = []
+    for (c, args, kind), (hd, runs, rc, err) in zip(jobs, outs):
+        if hd is None:
+            raise vf.InfraError("shim harness gave no header for %s rc=%s: %s" % (c["id"], rc, (err or "")[-800:]))
+        mlines += model_lines(c, hd, False)
+    mres = parse_model(ctx.run_model("cluster", "\n".join(mlines) + "\n")) if mlines else {}
+    sh = stats.setdefault("shim", {"schedules": 0, "cases": 0, "by_threads": {}, "by_kind": {}, "max_decisions": 0, "distinct_list_orders": 0})
+    for (c, args, kind), (hd, runs, rc, err) in zip(jobs, outs):
+        n = c["n"]; T, TN = hd["T"], hd["TN"]
+        iso = all(TN[i * n + j] == "0" for i in range(n) for j in range(n) if i != j)
+        expect = canon([[k] for k in range(n)]) if iso else components_py(n, T, c["old"])
+        for pk in ("first", "last", "h%d" % (n + 1)):
+            m = mres.get("%s@%s" % (c["id"], pk))
+            if m is None or m["canon"] != fmt_old(expect):
+                ctx.violation("correspondence:shim-model:%s" % c["gen"], "cluster_par (%s) differs from the components of the exported matrix" % pk,
+                              dict(c, shim=True, schedule="-"), no_input=True)
+        base = {k: v for k, v in c.items() if not k.startswith("_")}
+        base["shim"] = True; base["args"] = args
+        sh["cases"] += 1
+        orders = set()
+        if rc != 0 and not runs:
+            ctx.violation("shim:harness-exit-%s:mps_mcluster:%s" % (rc, c["gen"]), "shim harness failed: %s" % (err or "")[-300:], dict(base, schedule="-"))
+        for r in runs:
+            sh["schedules"] += 1
+            sh["by_threads"][str(c["threads"])] = sh["by_threads"].get(str(c["threads"]), 0) + 1
+            sh["by_kind"][kind] = sh["by_kind"].get(kind, 0) + 1
+            sh["max_decisions"] = max(sh["max_decisions"], r["sched"].count(",") + 1)
+            rep = dict(base, schedule=r["sched"], trace_tail=r["trace"])
+            if r["status"] != 0:
+                name = {1: "deadlock", 2: "steplimit", 3: "misuse", 4: "assert", 5: "crash", 6: "timeout"}.get(r["status"], str(r["status"]))
+                ctx.violation("shim:%s:mps_mcluster:n%d/t%d/%s" % (name, n, c["threads"], c["gen"]),
+                              "mps_mcluster under the scheduler shim: %s (%s) with %d threads" % (name, r["what"], c["threads"]), rep)
+                continue
+            if r["new"] is None:
+                ctx.violation("shim:no-result:mps_mcluster:%s" % c["gen"], "run finished without printing a clusterization", rep); continue
+            new = parse_clusters(r["new"])
+            orders.add(r["new"])
+            if r["bad"] != "0" or canon(new) != expect:
+                ctx.violation("shim:components:mps_mcluster:n%d/t%d/%s" % (n, c["threads"], c["gen"]),
+                              "schedule-dependent result: clusters %s are not the expected %s (override=%s)"
+                              % (r["new"][:120], fmt_old(expect)[:120], iso), rep)
+        sh["distinct_list_orders"] += len(orders)
+
+
 def exhaustive_model(ctx, nmax, stats):
     """all symmetric touch graphs on <= nmax nodes x all set partitions: model seq/par vs union-find"""
     def set_partitions(items):
@@ -451,7 +549,9 @@ def run(ctx):
     if ctx.replay:
         c = json.load(open(ctx.replay))
         c = {k: ([tuple(t) for t in v] if k in ("X", "Y", "G", "W") else v) for k, v in c.items()}
-        if "variant" in c:
+        if c.get("shim"):
+            shim_phase(ctx, stats)
+        elif "variant" in c:
             c["id"] = "c0"
             process(ctx, hbin, [c], stats, samples)
     else:
@@ -460,6 +560,7 @@ def run(ctx):
         for k in range(0, len(cases), 3000):
             process(ctx, hbin, cases[k:k + 3000], stats, samples)
         exhaustive_model(ctx, ctx.pick(4, 5), stats)
+        shim_phase(ctx, stats)
 
     def search():
         # targeted search when a proof obligation broke: the case splits of the traversal
@@ -487,6 +588,7 @@ def run(ctx):
         "spec_components_compared": stats["spec_compared"],
         "exhaustive_model_cases": stats.get("exhaustive_model_cases", 0), "exhaustive_nmax": stats.get("exhaustive_nmax", 0),
         "harness_mode": HARNESS_MODE,
+        "scheduler_shim": stats.get("shim", {}),
         "trusted_base": [
             "Coq 8.16.1 kernel; cluster theorems closed under the global context; touch theorems use the stdlib real-number axioms listed in axioms_used",
             "extraction (ExtrOcamlBasic, ExtrOcamlNativeString only) + ocaml/cluster_driver.ml (touch matrix passed as an OCaml closure over the exported string)",
